@@ -1435,7 +1435,8 @@ def run(ck):
     ck.trusted += ['translator tools/gen_elements.py (Python ast over periodictable/group*.py)',
                    'correspondence runner harness/checks/C04.py + harness/coqcases.py + harness/coqmol.py',
                    'CachedMethods shim harness/boot.py', 'CPython 3.12.1', 'RDKit 2026.3 (search only)']
-    ck.assumptions += ['calc_implicit / check_implicit / _compiled_valence_rules / totals / check_valence are hand-modelled (coq/model/Valence.v); tie = '
+    ck.assumptions += ['calc_implicit / check_implicit / _compiled_valence_rules / totals / check_valence (coq/model/Valence.v) and union / substructure / '
+                       'split (coq/model/ValenceArom.v) are hand-modelled; tie = '
                        'exact comparison of all 118 compiled tables, exhaustive comparison on the organic environment space and comparison on '
                        'rule-directed, random, malformed and corpus molecules',
                        'molecular_mass is modelled over exact decimals (x 10^24); the float result of the code is compared with the exact value '
